@@ -308,7 +308,7 @@ class Interp(object):
             return z3.BoolVal(repr(a) == repr(b))
         if type(a) != type(b):
             return Z.FALSE
-        if isinstance(a, (VStr, VInt)):
+        if isinstance(a, (VStr, VInt, VBytes, VFloat)):
             return a.z == b.z      # interning: `is` on str/int only used against literals
         self.unsupported('identity of %r and %r' % (a, b))
 
